@@ -52,6 +52,16 @@ Proof.
   subst tr2. reflexivity.
 Qed.
 
+(* the acceptor with snapshots only adds conditions *)
+Theorem tg_accepts_snap_accepts : forall O tr s,
+  tg_accepts_snap O s tr = true -> tg_accepts O s (map fst tr) = true.
+Proof.
+  intros O. induction tr as [|[[e o] n] tr IH]; intros s H; simpl in *; auto.
+  destruct (tg_step O s e) as [s1 o1].
+  apply andb_true_iff in H. destruct H as [H A]. apply andb_true_iff in H. destruct H as [E _].
+  rewrite E. simpl. apply IH. exact A.
+Qed.
+
 (* ------------------------------------------------------------------ pre-filter *)
 Theorem tg_prefilter_spec : forall d,
   tg_prefilter d = PreNewHello <-> (14 <= len d /\ nth 0 d 0 = 22 /\ nth 13 d 0 = 1).
